@@ -5,10 +5,13 @@
 package refsrv
 
 import (
+	"bytes"
 	"context"
 	"encoding/hex"
 	"encoding/json"
 	"fmt"
+	"log"
+	"strings"
 	"sync"
 
 	tq "github.com/facebookincubator/tacquito"
@@ -36,7 +39,15 @@ type Sink struct {
 	mu    sync.Mutex
 	lines []SinkLine
 	Delay func()
+	// Std, when set by UseStdLogger, renders through a real *log.Logger.
+	Std    *log.Logger
+	stdBuf bytes.Buffer
+	stdMu  sync.Mutex
 }
+
+// UseStdLogger makes the sink render every record through a stock log.Logger
+// (no prefix, no flags) writing to a buffer.
+func (s *Sink) UseStdLogger() { s.Std = log.New(&s.stdBuf, "", 0) }
 
 // SinkLine is one record handed to the sink.
 type SinkLine struct {
@@ -50,6 +61,14 @@ func (s *Sink) Printf(format string, args ...interface{}) {
 		s.Delay()
 	}
 	line := fmt.Sprintf(format, args...)
+	if s.Std != nil {
+		// render through a real log.Logger, exactly what SetLogSinkDefault installs
+		s.stdMu.Lock()
+		s.stdBuf.Reset()
+		s.Std.Printf(format, args...)
+		line = strings.TrimSuffix(s.stdBuf.String(), "\n")
+		s.stdMu.Unlock()
+	}
 	var t int64
 	if s.Net != nil {
 		t = s.Net.Log(0, "acct-sink", len(line), "")
